@@ -206,6 +206,10 @@ class Engine:
         self.summaries = {}
         self.overrides = {}             # id(body) -> python fn(engine, args, pc) -> value
         self.stubs = []                 # (regex, handler(engine, callee, args, dest_ty, st)) tried before everything
+        self.always_inline = set()      # bodies that contain nondeterministic stubs: a summary would share their choices
+        self.stub_log = []              # (callee, returned fresh value)
+        self.watch = set()              # body names whose inlined results are recorded in watch_log
+        self.watch_log = []
         self.models = []                # std models, filled by stdmodels.install
         self.sinks = [Sink()]
         self.assumptions = []
@@ -252,8 +256,8 @@ class Engine:
                     continue
                 if '<impl' in name:
                     continue
-                self.free_fns.setdefault(name.split('::')[-1], []).append(b)
-                self.free_fns.setdefault(name, []).append(b)
+                for key in {name.split('::')[-1], name}:
+                    self.free_fns.setdefault(key, []).append(b)
 
     def _impl_header(self, F, L, C, L2, C2):
         lines = self.sources[F]
@@ -1072,7 +1076,7 @@ class Engine:
 
     def needs_inline(self, target, args):
         mir.analyse_cfg(target)
-        if target.has_loops:
+        if target.has_loops or target.name in self.always_inline:
             return True
         for a in args:
             if isinstance(a, (Ref, It)):
@@ -1096,6 +1100,8 @@ class Engine:
             ins.append(self.read_ref(st, a) if isinstance(a, Ref) else a)
         # `&mut` formals get the pointee (copy-in); written back below (copy-out)
         val, outs = self.run_body(target, ins, st.pc)
+        if target.name in self.watch:
+            self.watch_log.append((target.name, val))
         for formal, a in zip(target.args, args):
             if formal in outs and isinstance(a, Ref):
                 new = outs[formal]
